@@ -472,7 +472,7 @@ func (e *Engine) keepOnHavoc(key string) bool {
 				if i := strings.Index(f, "."); i >= 0 {
 					f = f[:i]
 				}
-				if tc.Immutable[f] {
+				if tc.Immutable[f] || tc.Stable[f] {
 					return true
 				}
 				if g := tc.Ghost[f]; g != nil && g.ThreadLocal {
